@@ -7,7 +7,7 @@ from vf import explore
 OPS = ["Neg", "Add", "Sub", "Split"]
 ARITY = {"Neg": 1, "Add": 2, "Sub": 2, "Split": 1}
 NOUT = {"Neg": 1, "Add": 1, "Sub": 1, "Split": 2}
-OR_EXTRA = 2      # node-patterns an OR may add on top of the skeleton budget (its alternatives)
+DOMAIN = "custom.domain"
 
 _B36 = "0123456789abcdefghijklmnopqrstuvwxyz"
 
@@ -30,17 +30,17 @@ class _PG:
         self.budget = max_nodes
         self.nodes = {}            # id -> node dict (ids in creation order: producers before consumers)
         self.vars = []             # value-variable names in order of creation
-        self.feat = set()
         self.nopt = 0
 
     def new_var(self):
-        name = "xyzwuvst"[len(self.vars)]
+        name = "xyzwuvst"[len(self.vars)] if len(self.vars) < 8 else "v%d" % len(self.vars)
         self.vars.append(name)
         return ["x", name, False]
 
-    def leaf(self, allow_or):
+    def leaf(self, allow_or, alt=False):
         ch = self.ch
-        menu = ["new"] + ["rep:" + v for v in self.vars] + ["c1", "cv", "none", "opt", "any"]
+        # an OR alternative is a ValuePattern: the absent input (None) is not one
+        menu = ["new"] + ["rep:" + v for v in self.vars] + ["c1", "cv"] + ([] if alt else ["none"]) + ["opt", "any"]
         for i in sorted(self.nodes):
             for k in range(len(self.nodes[i]["outs"])):
                 menu.append(f"sh:{i}.{k}")
@@ -50,51 +50,40 @@ class _PG:
         if l == "new":
             return self.new_var()
         if l.startswith("rep:"):
-            self.feat.add("repvar")
             return ["x", l[4:], False]
         if l == "c1":
-            self.feat.add("const")
             return ["k", 1.0]
         if l == "cv":
-            self.feat.add("constvec")
             return ["k", [1, 2]]
         if l == "none":
-            self.feat.add("none")
             return None
         if l == "opt":
-            self.feat.add("optvar")
             self.nopt += 1
             return ["x", "o%d" % self.nopt, True]
         if l == "any":
-            self.feat.add("any")
             return ["any"]
         if l.startswith("sh:"):
-            self.feat.add("share")
             i, k = l[3:].split(".")
             return ["o", int(i), int(k)]
-        # OR of two alternatives; each alternative is a full value position without a nested OR
+        # OR of two alternatives; each alternative: a leaf, or ONE new node-pattern over leaves (not charged to the skeleton budget)
         before = self.budget
-        self.budget = before + OR_EXTRA
-        alts = [self.value(False), self.value(False)]
-        used = before + OR_EXTRA - self.budget
-        self.budget = before - max(0, used - OR_EXTRA)     # the OR allowance is consumed first
+        alts = []
+        for _ in range(2):
+            self.budget = 1
+            alts.append(self.value(False, alt=True))
+        self.budget = before
         name = ch.choose("orname", [None, "orv"])
         tag = ch.choose("ortag", [None, "tag", "tagvals"])
-        if name:
-            self.feat.add("or-name")
-        if tag:
-            self.feat.add("or-tag")
-        self.feat.add("or")
         return ["or", alts, name, "tg" if tag else None, ["A", "B"] if tag == "tagvals" else None]
 
-    def value(self, allow_or=True):
+    def value(self, allow_or=True, alt=False):
         ch = self.ch
         opts = ["leaf"]
         if self.budget > 0:
-            opts += ["Neg", "Add", "Sub", "Split.0", "Split.1"]
+            opts += ["Neg", "Add", "Sub", "Split.0"] + ([] if alt else ["Split.1"])
         c = ch.all("pos", opts)
         if c == "leaf":
-            return self.leaf(allow_or)
+            return self.leaf(allow_or, alt)
         self.budget -= 1
         op, _, k = c.partition(".")
         nid = self.node(op, allow_or)
@@ -109,70 +98,59 @@ class _PG:
         n_in = 1 if short != "no" else ARITY[op]
         for _ in range(n_in):
             ins.append(self.value(allow_or))
-        nd = {"op": op, "ins": ins, "attrs": {}, "oa": None, "oi": None, "outs": [None] * NOUT[op]}
-        if short != "no":
-            self.feat.add("short")
-            if short == "short+oi":
-                nd["oi"] = True
-                self.feat.add("other-inputs")
+        nd = {"op": op, "ins": ins, "attrs": {}, "oa": None, "oi": None, "outs": [None] * NOUT[op], "dom": None}
+        if ch.choose("dom", [None, DOMAIN]):
+            nd["dom"] = DOMAIN
+        if short == "short+oi":
+            nd["oi"] = True
         if op == "Split":
             in2 = ch.choose("in2", ["omit", "none", "cv", "opt", "var", "any"])
             if in2 == "none":
                 ins.append(None)
-                self.feat.add("none")
             elif in2 == "cv":
                 ins.append(["k", [1, 2]])
-                self.feat.add("constvec")
             elif in2 == "opt":
                 self.nopt += 1
                 ins.append(["x", "o%d" % self.nopt, True])
-                self.feat.add("optvar")
             elif in2 == "var":
                 ins.append(self.new_var())
-                self.feat.add("in2-var")
             elif in2 == "any":
                 ins.append(["any"])
-                self.feat.add("any")
             ax = ch.choose("axis", ["absent", "c1", "var", "var2", "optvar"])
             if ax == "c1":
                 nd["attrs"]["axis"] = ["c", 1]
-                self.feat.add("attr-const")
             elif ax == "var":
                 nd["attrs"]["axis"] = ["v", "ax", False]
-                self.feat.add("attr-var")
             elif ax == "var2":
                 nd["attrs"]["axis"] = ["v", "ax2", False]
-                self.feat.add("attr-var")
             elif ax == "optvar":
                 nd["attrs"]["axis"] = ["v", "axo", True]
-                self.feat.add("attr-optvar")
             if ch.choose("oa", [None, False]) is False:
                 nd["oa"] = False
-                self.feat.add("no-other-attrs")
             if ch.choose("oi", [None, True]):
                 nd["oi"] = True
-                self.feat.add("other-inputs")
             outs = ch.choose("nouts", ["2", "named", "1", "3"])
             if outs == "named":
                 nd["outs"] = ["p", "q"]
-                self.feat.add("outs-named")
             elif outs == "1":
                 nd["outs"] = [None]
-                self.feat.add("outs-1")
             elif outs == "3":
                 nd["outs"] = [None, None, None]
-                self.feat.add("outs-3")
         nid = len(self.nodes)
         self.nodes[nid] = nd
         return nid
 
 
-def pattern_driver(max_nodes):
+def pattern_driver(max_nodes, exact=False):
+    """Patterns with at most (exact: exactly) ``max_nodes`` skeleton node-patterns."""
     def driver(ch):
         g = _PG(ch, max_nodes - 1)
         root_op = ch.all("root", OPS)
         rid = g.node(root_op)
         root = g.nodes[rid]
+        skel = max_nodes - g.budget            # skeleton node-patterns actually used (OR alternatives not counted)
+        if exact and skel != max_nodes:
+            raise explore.Prune()
         outs = [["o", rid, 0]]
         menu = ["root"]
         if len(root["outs"]) >= 2:
@@ -183,22 +161,18 @@ def pattern_driver(max_nodes):
         om = ch.choose("outmode", menu)
         if om == "both":
             outs = [["o", rid, 0], ["o", rid, 1]]
-            g.feat.add("out-both")
         elif om == "second":
             outs = [["o", rid, 1]]
-            g.feat.add("out-second")
         elif om.startswith("root+in:") or om.startswith("in+root:"):
             i, k = om.split(":")[1].split(".")
             o2 = ["o", int(i), int(k)]
             outs = [outs[0], o2] if om.startswith("root") else [o2, outs[0]]
-            g.feat.add("out-inner" if om.startswith("root") else "out-inner-first")
         elif om in ("root+neg", "neg+root"):
             g.budget = 0
             v = g.leaf(False)
             nid = len(g.nodes)
-            g.nodes[nid] = {"op": "Neg", "ins": [v], "attrs": {}, "oa": None, "oi": None, "outs": [None]}
+            g.nodes[nid] = {"op": "Neg", "ins": [v], "attrs": {}, "oa": None, "oi": None, "outs": [None], "dom": None}
             outs = [outs[0], ["o", nid, 0]] if om == "root+neg" else [["o", nid, 0], outs[0]]
-            g.feat.add("out-nodes2" if om == "root+neg" else "out-nodes2-first")
         # named outputs must not collide
         seen = 0
         for nd in g.nodes.values():
@@ -209,9 +183,7 @@ def pattern_driver(max_nodes):
         commute = False
         if any(nd["op"] == "Add" for nd in g.nodes.values()):
             commute = ch.choose("commute", [False, True])
-            if commute:
-                g.feat.add("commute")
-        pat = {"nodes": g.nodes, "outs": outs, "commute": commute}
+        pat = {"nodes": g.nodes, "outs": outs, "commute": commute, "skel": skel}
         finish(pat)
         if not reachable_ok(pat):
             raise explore.Prune()
@@ -314,6 +286,8 @@ def features(pat):
             f.add("no-other-attrs")
         if nd["oi"]:
             f.add("other-inputs")
+        if nd.get("dom"):
+            f.add("domain")
         if len(nd["ins"]) < ARITY[nd["op"]]:
             f.add("short")
         if any(nd["outs"]):
@@ -329,7 +303,9 @@ def features(pat):
         f.add("out-second")
     if pat.get("commute"):
         f.add("commute")
-    return sorted(f)
+    if any(nd["op"] == "Split" and len(nd["ins"]) > 1 for nd in pat["nodes"].values()):
+        f.add("split-in2")
+    return sorted(f) or ["plain"]
 
 
 def or_form(pat, vp):
@@ -339,7 +315,7 @@ def or_form(pat, vp):
     for a in vp[1]:
         if a is None or a[0] != "o":
             return "bt"
-        ops.append(pat["nodes"][a[1]]["op"])
+        ops.append((pat["nodes"][a[1]].get("dom"), pat["nodes"][a[1]]["op"]))
     return "disp" if len(set(ops)) == len(ops) else "bt"
 
 
@@ -348,12 +324,18 @@ def root_op(pat):
 
 
 def req_sig(pat):
-    """(root op, requirement per root input position): an operator name when the position holds a computed
-    value of that operator, '*' otherwise; under commute the two positions of an Add are unordered."""
+    """(root op, requirement per root input position): the tuple of operators that can compute the value at
+    that position (a computed-value pattern, or an OR whose alternatives are all computed values), '*' when
+    anything can stand there; under commute the two positions of an Add are unordered."""
     rn = pat["nodes"][pat["outs"][0][1]]
     req = []
     for vp in rn["ins"][:2]:
-        req.append(pat["nodes"][vp[1]]["op"] if (vp is not None and vp[0] == "o") else "*")
+        if vp is not None and vp[0] == "o":
+            req.append((pat["nodes"][vp[1]]["op"],))
+        elif vp is not None and vp[0] == "or" and all(a is not None and a[0] == "o" for a in vp[1]):
+            req.append(tuple(sorted({pat["nodes"][a[1]]["op"] for a in vp[1]})))
+        else:
+            req.append("*")
     while len(req) < 2:
         req.append("*")
     if pat.get("commute") and rn["op"] == "Add" and req[0] != req[1]:
@@ -385,6 +367,8 @@ def show_pattern(pat):
             extra.append("_allow_other_inputs=True")
         if nd["outs"] != [None]:
             extra.append(f"_outputs={nd['outs'] if any(nd['outs']) else len(nd['outs'])}")
+        if nd.get("dom"):
+            extra.append(f"_domain={nd['dom']!r}")
         lines.append(f"n{i}={nd['op']}({', '.join([vs(v) for v in nd['ins']] + extra)})")
     return "; ".join(lines) + " -> " + ",".join(vs(o) for o in pat["outs"]) + (" [commute]" if pat.get("commute") else "")
 
@@ -408,7 +392,7 @@ def host_driver(k_max, k_min=1):
             for _ in range(ARITY[op]):
                 s = ch.all("src", srcs)
                 ins.append(ch.choose("leaf", LEAVES) if s == "leaf" else s)
-            nd = {"op": op, "ins": ins, "attrs": {}, "nout": NOUT[op]}
+            nd = {"op": op, "ins": ins, "attrs": {}, "nout": NOUT[op], "dom": ch.choose("dom", ["", DOMAIN])}
             if op == "Split":
                 in2 = ch.choose("in2", ["omit", "none", "cv", "a"])
                 if in2 != "omit":
@@ -451,7 +435,7 @@ def host_driver(k_max, k_min=1):
 
 
 def _sk(nd):
-    return (nd["op"], [str(v) for v in nd["ins"]], sorted(nd["attrs"].items()), nd["nout"])
+    return (nd["op"], [str(v) for v in nd["ins"]], sorted(nd["attrs"].items()), nd["nout"], nd["dom"])
 
 
 class FlatHost:
@@ -464,18 +448,18 @@ class FlatHost:
         for c in self.const_names:
             self.consts[c] = CONSTS[c]
             if h["cnode"]:
-                self.nodes.append(("k_" + c, "Constant", [], {"value": CONSTS[c]}, [c]))
+                self.nodes.append(("k_" + c, "Constant", [], {"value": CONSTS[c]}, [c], ""))
         self.slice_first = len(self.nodes)
         for j, nd in enumerate(h["nodes"]):
             self.nodes.append((f"n{j}", nd["op"], list(nd["ins"]), dict(nd["attrs"]),
-                               [f"n{j}_{o}" for o in range(nd["nout"])]))
+                               [f"n{j}_{o}" for o in range(nd["nout"])], nd["dom"]))
         self.root = len(self.nodes) - 1
         for v in h["extra"]:
-            self.nodes.append(("x" + v[1:], "Neg", [v], {}, ["x" + v[1:] + "_0"]))
+            self.nodes.append(("x" + v[1:], "Neg", [v], {}, ["x" + v[1:] + "_0"], ""))
             self.gouts.add("x" + v[1:] + "_0")
         self.cnode = h["cnode"]
         self.prod, self.uses = {}, {}
-        for n, (_, _, ins, _, outs) in enumerate(self.nodes):
+        for n, (_, _, ins, _, outs, _) in enumerate(self.nodes):
             for i, v in enumerate(outs):
                 self.prod[v] = (n, i)
             for v in ins:
@@ -485,7 +469,7 @@ class FlatHost:
 
     def sig(self):
         """(root op, per root input: producing operator or 'leaf')."""
-        _, op, ins, _, _ = self.nodes[self.root]
+        _, op, ins, _, _, _ = self.nodes[self.root]
         s = []
         for v in ins[:2]:
             s.append(self.nodes[self.prod[v][0]][1] if (v is not None and v in self.prod
@@ -496,14 +480,14 @@ class FlatHost:
 
     def show(self):
         parts = []
-        for name, op, ins, attrs, outs in self.nodes:
+        for name, op, ins, attrs, outs, dom in self.nodes:
             a = "".join(f",{k}={v}" for k, v in attrs.items() if op != "Constant")
-            parts.append(f"{','.join(outs)}={op}({','.join(str(v) for v in ins)}{a})")
+            parts.append(f"{','.join(outs)}={dom + '::' if dom else ''}{op}({','.join(str(v) for v in ins)}{a})")
         return "; ".join(parts) + " -> " + ",".join(sorted(self.gouts)) + ("" if self.cnode or not self.consts else " [initializers]")
 
 
 def compatible(req, sig):
-    return req[0] == sig[0] and all(r == "*" or r == s for r, s in zip(req[1:], sig[1:]))
+    return req[0] == sig[0] and all(r == "*" or s in r for r, s in zip(req[1:], sig[1:]))
 
 
 # ---------------------------------------------------------------------------------------------
@@ -518,7 +502,7 @@ def build_host(fh):
         vals[v] = ir.Value(name=v, type=ir.TensorType(ir.DataType.FLOAT), shape=ir.Shape([2, 2]))
     inits = []
     nodes = []
-    for name, op, ins, attrs, outs in fh.nodes:
+    for name, op, ins, attrs, outs, dom in fh.nodes:
         if op == "Constant":
             c = outs[0]
             arr = np.array(attrs["value"], dtype=np.int64 if isinstance(attrs["value"], list) else np.float32)
@@ -532,17 +516,17 @@ def build_host(fh):
             arr = np.array(pv, dtype=np.int64 if isinstance(pv, list) else np.float32)
             vals[c] = ir.Value(name=c, const_value=ir.tensor(arr, name=c))
             inits.append(vals[c])
-    for name, op, ins, attrs, outs in fh.nodes:
+    for name, op, ins, attrs, outs, dom in fh.nodes:
         if op == "Constant":
             continue
-        nd = ir.Node("", op, [vals[v] if v is not None else None for v in ins],
+        nd = ir.Node(dom, op, [vals[v] if v is not None else None for v in ins],
                      attributes=[ir.AttrInt64(k, v) for k, v in attrs.items()], name=name,
                      outputs=[ir.Value(name=o) for o in outs])
         for o, v in zip(outs, nd.outputs):
             vals[o] = v
         nodes.append(nd)
     graph = ir.Graph([vals[v] for v in fh.graph_inputs], [vals[v] for v in sorted(fh.gouts)], nodes=nodes,
-                     initializers=inits, opset_imports={"": 18}, name="host")
+                     initializers=inits, opset_imports={"": 18, DOMAIN: 1}, name="host")
     model = ir.Model(graph, ir_version=10)
     if fh.cnode:
         # what RewriteRuleSet.apply_to_model does before matching: Constant nodes get their const_value
@@ -591,6 +575,8 @@ def build_pattern(pat):
             kw["_allow_other_inputs"] = nd["oi"]
         if nd["outs"] != [None]:
             kw["_outputs"] = list(nd["outs"]) if any(nd["outs"]) else len(nd["outs"])
+        if nd.get("dom"):
+            kw["_domain"] = nd["dom"]
         r = getattr(op, nd["op"])(*[vp(x) for x in nd["ins"]], **kw)
         rs = [r] if isinstance(r, pir.ValuePattern) else list(r)
         for k, o in enumerate(rs):
